@@ -102,6 +102,22 @@ Proof. vm_cast_no_check (@eq_refl bool true). Qed.
 Lemma builder_ok_3 : forall_inputs 3 builder_case_ok = true.
 Proof. vm_cast_no_check (@eq_refl bool true). Qed.
 
+(* the leader is handed only to stores that accept leaders *)
+Definition leader_case_ok (i : binput) : bool :=
+  match prepared i with
+  | None => true
+  | Some b => match build i with
+              | Built ss _ _ => leader_stores_ok (b_cluster b) (leader (i_region i)) (b_tleader b) (b_force b) ss
+              | _ => true
+              end
+  end.
+Lemma leader_ok_1 : forall_inputs 1 leader_case_ok = true.
+Proof. vm_cast_no_check (@eq_refl bool true). Qed.
+Lemma leader_ok_2 : forall_inputs 2 leader_case_ok = true.
+Proof. vm_cast_no_check (@eq_refl bool true). Qed.
+Lemma leader_ok_3 : forall_inputs 3 leader_case_ok = true.
+Proof. vm_cast_no_check (@eq_refl bool true). Qed.
+
 Lemma builder_case_ok_elim i b ss kl kr :
   builder_case_ok i = true -> prepared i = Some b -> build i = Built ss kl kr ->
   plan_ok (goal_of b) (i_region i) ss = true.
@@ -127,6 +143,32 @@ Proof.
     - exact (forall_inputs_spec 3 builder_case_ok builder_ok_3 ov ol tv tl lok m force Hov Hol Htv Htl Hlok Hm). }
   eapply builder_case_ok_elim; eauto.
 Qed.
+
+Lemma builder_leader_stores_bounded_pf :
+  forall n, (1 <= n <= 3)%nat ->
+  forall ov ol tv tl lok m force,
+    In ov (vectors role_opts n) -> In ol (voters_of (origin_of ov)) ->
+    In tv (vectors role_opts n) -> In tl (0 :: voters_of (target_of tv)) ->
+    In lok (vectors [true; false] n) -> In m modes ->
+  forall b ss kl kr,
+    prepared (mk_input n ov ol tv tl lok m force) = Some b -> build (mk_input n ov ol tv tl lok m force) = Built ss kl kr ->
+    leader_stores_ok (b_cluster b) ol (b_tleader b) (b_force b) ss = true.
+Proof.
+  intros n Hn ov ol tv tl lok m force Hov Hol Htv Htl Hlok Hm b ss kl kr Hp Hb.
+  assert (Hc : leader_case_ok (mk_input n ov ol tv tl lok m force) = true).
+  { destruct n as [|[|[|[|n]]]]; try lia.
+    - exact (forall_inputs_spec 1 leader_case_ok leader_ok_1 ov ol tv tl lok m force Hov Hol Htv Htl Hlok Hm).
+    - exact (forall_inputs_spec 2 leader_case_ok leader_ok_2 ov ol tv tl lok m force Hov Hol Htv Htl Hlok Hm).
+    - exact (forall_inputs_spec 3 leader_case_ok leader_ok_3 ov ol tv tl lok m force Hov Hol Htv Htl Hlok Hm). }
+  unfold leader_case_ok in Hc. rewrite Hp, Hb in Hc. exact Hc.
+Qed.
+
+(* the plan the builder produced before the repair for {1 voter leader on a store that rejects leaders, 2 voter}, move 2 -> 3
+   without joint consensus: the leader goes 1 -> 2 and is handed BACK to store 1 *)
+Lemma leader_bounce_rejected :
+  leader_stores_ok (Cluster [Store 1 true false []; Store 2 true true []; Store 3 true true []] false false 0) 1 0 false
+    [TransferLeader 1 2; AddLearner 3 203; PromoteLearner 3 203; TransferLeader 2 1; RemovePeer 2 102; TransferLeader 1 3] = false.
+Proof. reflexivity. Qed.
 
 (* ---------- the inputs that failed before the repairs (regression witnesses) ---------- *)
 Definition up_store (i : Z) := Store i true true [].
